@@ -32,6 +32,15 @@
   theorem about flattened queue contents (`received`) transfers to such executions.
   Pre-emption inside a critical section and the internals of `queue.Queue` / `Lock` are outside the
   model (CPython).
+  `channels_write` holds the channels lock from before the ENABLE request is written until `en_now` is
+  assigned (request, ACK wait and update are one critical section): an enabled-test of the stream
+  thread that starts after the device has applied the request therefore answers with the NEW vector,
+  i.e. the `setEnabled` is ordered before every frame the device emitted after applying it (K: the
+  `enable-race` sessions of harness/props/C08.py).
+  Outside the model: queue items are values here, the code puts the SAME list object on every
+  subscriber queue of a channel (a consumer that mutates it is seen by the others); `connect()`
+  rebuilds `_sub_q`, so `St.init` (no queues) is the state after EVERY connect and a queue subscribed
+  on an earlier connection receives nothing (see Props/C08.lean, "behaviours outside the model").
 
   "SINCE THE SUBSCRIPTION" is therefore modelled as "PROCESSED since the subscription": a frame that
   was received before `stream_sub` returned but is still waiting in `_q_stream` (or is being decoded)
